@@ -34,6 +34,11 @@ def oracle(case):
     want = lo if r <= 0 else (hi if r >= 1 else None)
     if want is None:
         return None
+    # the metric "as computed by the same Scores object" must agree with the count by the documented rule
+    lib = float(getattr(s, case["metric"])(th))
+    if got == want and abs(lib - want / n_all) > 1e-12:
+        return (f"threshold_at_{case['metric']}({r!r}, method={case['method']!r}) = {th!r}: the object's own {case['metric']} there is {lib!r} but the decision rule gives "
+                f"{want}/{n_all}  [pos={case['pos']}, neg={case['neg']}, easy=({case['ep']},{case['en']}), {case['sc']}/{case['ec']}, dtype={case.get('dtype', 'float64')}]")
     if got != want:
         real = getattr(s, case["metric"])(th)
         return (f"threshold_at_{case['metric']}({r!r}, method={case['method']!r}) = {th!r}: metric count {got}/{n_all} (library says {real!r}) "
@@ -41,8 +46,23 @@ def oracle(case):
     return None
 
 
+def oracle_array(case):
+    s = TH.real_scores(case)
+    rs = np.array(case["r_array"], dtype=float)
+    ths = np.asarray(getattr(s, "threshold_at_" + case["metric"])(rs, method=case["method"]))
+    if ths.shape != rs.shape:
+        return f"threshold_at_{case['metric']}(array of shape {rs.shape}) has shape {ths.shape}"
+    n_rel, n_all, lo, hi = TH.pop_info(case)
+    for r, th in zip(rs, ths):
+        want = lo if r <= 0 else (hi if r >= 1 else None)
+        if want is not None and TH.counts_at(case, th) != want:
+            return (f"threshold_at_{case['metric']}({rs.tolist()}, method={case['method']!r})[target {r}] = {th!r}: metric count {TH.counts_at(case, th)}/{n_all} but the "
+                    f"{'lowest' if r <= 0 else 'highest'} achievable is {want}/{n_all}  [pos={case['pos']}, neg={case['neg']}, easy=({case['ep']},{case['en']}), {case['sc']}/{case['ec']}]")
+    return None
+
+
 def replay(case):
-    return oracle(case)
+    return oracle_array(case) if "r_array" in case else oracle(case)
 
 
 TARGETS = [-0.5, 0.0, -0.0, 1.0, 1.5]
@@ -51,9 +71,14 @@ TARGETS = [-0.5, 0.0, -0.0, 1.0, 1.5]
 def eval_items(items):
     counts, viols = {"extreme": [0, 0]}, []
     for pos, neg, ep, en in items:
+        dtn = None
+        if isinstance(ep, str):          # dtype variant: (pos, neg, dtype-name, 0)
+            dtn, ep, en = ep, 0, 0
         for sc, ec in B.CONFIGS:
             for metric in TH.METRICS:
                 base = {"clause": "extreme", "pos": pos, "neg": neg, "ep": ep, "en": en, "sc": sc, "ec": ec, "metric": metric}
+                if dtn:
+                    base["dtype"] = dtn
                 if TH.pop_info(base)[0] == 0:
                     continue
                 for method in TH.METHODS:
@@ -67,6 +92,13 @@ def eval_items(items):
                         if res:
                             end = "low" if r <= 0 else "high"
                             viols.append(("extreme", f"C03/{metric}/extreme-{end}[{sc},{ec}]", res, B.jsonable(case)))
+                    # one call with an array of targets holding both ends (and interior values)
+                    case = dict(base, method=method, r_array=[1.5, 0.0, 0.5, 1.0, -0.5])
+                    res = oracle_array(case)
+                    counts["extreme"][0] += 1
+                    counts["extreme"][1] += 1
+                    if res:
+                        viols.append(("extreme", f"C03/{metric}/extreme-array-targets[{sc},{ec}]", res, B.jsonable(case)))
     return counts, viols, []
 
 
@@ -105,6 +137,9 @@ def bounded(chk):
             if len(pos) + len(neg) <= 3:
                 # integer-dtype score arrays (the sentinels must still be floats one ulp outside the range)
                 items.append(([int(v + sh) for v in pos], [int(v + sh) for v in neg], 0, 0))
+                # narrow float dtypes: the float64 sentinel must not be rounded back onto the extreme score by the metric
+                for dtn in ("float32", "float16"):
+                    items.append(([v + sh for v in pos], [v + sh for v in neg], dtn, 0))
     run_bounded(chk, items, eval_items)
     # float sweep of the easy-sample rescaling at the exact end targets (the proof layer is exact-real and cannot see rounding)
     nmax, emax = (8, 32) if chk.tier == "quick" else (16, 64)
@@ -113,6 +148,7 @@ def bounded(chk):
         for e in range(0, emax + 1):
             sweep.append(("sweep", n, e))
     run_bounded(chk, sweep, eval_sweep)
+    chk.bounded["bound"] += "; integer, float32 and float16 score arrays (<= 3 scores)"
     chk.bounded["bound"] += f"; rounding sweep: 1..{nmax} distinct scores per class x easy counts 0..{emax} (one class or both), r in {{0,1}}, 6 metrics, 4 configurations"
     chk.samples.append({"bounded-case": {"pos": [-9.0], "neg": [-8.0, -7.0, -7.0], "easy": [0, 3], "config": ["neg", "neg"], "metric": "tnr", "method": "lower", "r": 1.0}})
 
